@@ -389,7 +389,7 @@ class HistoryGen:
     """A history: list of call descriptions (see c17_worker) + per call the abstract model call."""
     # families aimed at one class of leak each; c17.py makes every history contain some of them (round robin), so that a
     # quick run does not depend on luck to contain each family several times
-    TARGETED = ["c_default_aliasing", "c_fixed_decimal_sequence", "c_revalidate", "c_defaults", "c_dangling_reference", "c_lazy_readers", "c_union_hints", "c_legacy_defaults", "c_redefined_names",
+    TARGETED = ["c_alias_pairs", "c_default_aliasing", "c_fixed_decimal_sequence", "c_revalidate", "c_defaults", "c_dangling_reference", "c_lazy_readers", "c_union_hints", "c_legacy_defaults", "c_redefined_names",
                 "c_writer_object", "c_piecewise_use", "c_read_union_of_records", "c_read_decimal_focus"]
 
     def __init__(self, rng, ncalls, must=()):
@@ -1011,6 +1011,47 @@ class HistoryGen:
                 call["$mutate_result"] = True
             self.emit(call, ab, expect="ok")
 
+    # --- same writer name / reader name pair, reader aliases present vs absent --------------------------------------
+    def c_alias_pairs(self):
+        """schema resolution between a writer type 'Old...' and a reader type 'New...': the reader carries the alias in one
+        call and not in the other (records, enums, fixed; schemaless_reader and reader with a reader schema), both orders"""
+        rng = self.rng
+        kind = rng.choice(["record", "record", "enum", "fixed"])
+        ns = rng.choice(["", "", "ns"])
+        q = (lambda n: ns + "." + n) if ns else (lambda n: n)
+        if kind == "record":
+            w = {"type": "record", "name": q("OldRec"), "fields": [{"name": "a", "type": "long"}, {"name": "b", "type": "string"}]}
+            mk = lambda alias: dict({"type": "record", "name": q("NewRec"), "fields": [{"name": "a", "type": "long"}, {"name": "b", "type": "string"}]},
+                                    **({"aliases": [rng.choice([q("OldRec"), "OldRec"])]} if alias else {}))
+        else:
+            inner_w = ({"type": "enum", "name": q("OldE"), "symbols": ["A", "B", "C"]} if kind == "enum"
+                       else {"type": "fixed", "name": q("OldF"), "size": 3})
+            w = {"type": "record", "name": q("Holder"), "fields": [{"name": "x", "type": inner_w}, {"name": "n", "type": "long"}]}
+
+            def mk(alias):
+                inner = ({"type": "enum", "name": q("NewE"), "symbols": ["A", "B", "C"]} if kind == "enum"
+                         else {"type": "fixed", "name": q("NewF"), "size": 3})
+                if alias:
+                    inner["aliases"] = [inner_w["name"] if rng.random() < 0.5 else inner_w["name"].split(".")[-1]]
+                return {"type": "record", "name": q("Holder"), "fields": [{"name": "x", "type": inner}, {"name": "n", "type": "long"}]}
+        defined = {}
+        order = rng.choice([[True, False], [False, True], [True, False, True], [False, True, False]])
+        for alias in order:
+            r = mk(alias)
+            dg = DataGen(rng, "read", defined)
+            arg_r = r
+            if rng.random() < 0.3:
+                out = self.fresh_slot("P")
+                self.emit({"api": "parse_schema", "schema": r, "$out": out}, "CParse", expect="ok")
+                arg_r = {"$slot": out}
+            ab = "(CRead [])" if alias else "(CFailing (CRead []) 0%nat)"
+            if rng.random() < 0.6:
+                self.emit({"api": "schemaless_reader", "schema": w, "data": encode(w, dg.gen(w), defined), "reader_schema": arg_r},
+                          ab, expect="any")
+            else:
+                recs = [dg.gen(w) for _ in range(rng.randrange(1, 3))]
+                self.emit({"api": "reader", "data": container(w, recs, defined, "null"), "reader_schema": arg_r}, ab, expect="any")
+
     # --- names that only an EARLIER call defined ---------------------------------------------
     def c_dangling_reference(self):
         """a schema that merely REFERS to a type name (defined by other schemas of the history, never by itself):
@@ -1284,7 +1325,7 @@ class HistoryGen:
 
     KINDS = [("c_parse", 5), ("c_schemaless_writer", 3), ("c_schemaless_reader", 3), ("c_read_truncated", 1), ("c_read_union_of_records", 2),
              ("c_defaults", 5), ("c_dangling_reference", 2), ("c_lazy_readers", 1),
-             ("c_union_hints", 2), ("c_legacy_defaults", 2), ("c_redefined_names", 4), ("c_writer_object", 1), ("c_piecewise_use", 2), ("c_revalidate", 1), ("c_fixed_decimal_sequence", 1), ("c_default_aliasing", 1),
+             ("c_union_hints", 2), ("c_legacy_defaults", 2), ("c_redefined_names", 4), ("c_writer_object", 1), ("c_piecewise_use", 2), ("c_revalidate", 1), ("c_fixed_decimal_sequence", 1), ("c_default_aliasing", 1), ("c_alias_pairs", 1),
              ("c_read_decimal_focus", 3), ("c_writer", 3), ("c_reader", 2), ("c_reader_truncated", 1), ("c_validate", 3),
              ("c_canonical", 1), ("c_fingerprint", 1), ("c_json_writer", 2), ("c_json_reader", 1), ("c_generate", 1), ("c_load", 2)]
 
